@@ -63,10 +63,6 @@ pub fn eval(cfg: &Cfg, input: &[u8], strong: bool, st: &mut Stats) -> Result<(),
             st.count("encode_panicked_see_C11");
             return Ok(());
         }
-        Enc::Refused(datamatrix::data::DataEncodingError::SymbolListEmpty) => {
-            st.count("symbol_list_empty_see_C11");
-            return Ok(());
-        }
         Enc::Refused(_) => {
             st.count("refused");
             None
